@@ -138,18 +138,18 @@ def expectedFailingSenders : List String := [
 
 /-- operations known today to have neither a cancellation alternative nor a justified partner -/
 def expectedFailingOps : List (String × String × String) := [
-  ("harness.NextAction", "recv", "response"),                      -- D22
-  ("newHarness$lit$lit", "recv", "node.activity.Cancel()"),         -- same shape, at an interrupting boundary
-  ("startEvent.run", "send", "m.response"),                        -- unbuffered reply to a token that may have left
-  ("throwEvent.run", "send", "m.response"),
-  ("eventBasedGateway.run", "send", "m.response"),
-  ("catchEvent.run", "send", "actionChan"),
-  ("distributeFlows", "send", "action"),
-  ("inclusiveGateway.trySync", "send", "gw.activated.response"),
-  ("eventBasedGateway.run$lit", "send", "ch"),                     -- winner notifying a loser that may have left
-  ("flowTracker.run", "select", "recv:tracker.traces|recv:tracker.shutdownCh"),
-  ("tracing.tracer.run", "send", "subscriber"),                    -- newFlowTracker subscribes and never unsubscribes
-  ("timer.New$arg", "send", "ch")]
+  ("harness.NextAction", "recv", "_"),                      -- D22
+  ("newHarness$lit$lit", "recv", "_.activity.Cancel()"),         -- same shape, at an interrupting boundary
+  ("startEvent.run", "send", "_.response"),                        -- unbuffered reply to a token that may have left
+  ("throwEvent.run", "send", "_.response"),
+  ("eventBasedGateway.run", "send", "_.response"),
+  ("catchEvent.run", "send", "_"),
+  ("distributeFlows", "send", "_"),
+  ("inclusiveGateway.trySync", "send", "_.activated.response"),
+  ("eventBasedGateway.run$lit", "send", "_"),                     -- winner notifying a loser that may have left
+  ("flowTracker.run", "select", "recv:_.traces|recv:_.shutdownCh"),
+  ("tracing.tracer.run", "send", "_"),                    -- newFlowTracker subscribes and never unsubscribes
+  ("timer.New$arg", "send", "_")]
 
 /-- goroutine bodies the model's reading of the code relies on -/
 def anchorBodies : List String := [
